@@ -1,8 +1,10 @@
 """C01 Compiled programs behave as DDP's evaluation rules prescribe.
 Reference-model monitor: generated well-typed core-language programs are compiled by the real kddp
 at -O 0/1/2 and run; stdout and exit status are compared byte for byte with ddpmodel's independent
-reference evaluator. Three generators: operator cell sweep over boundary values, random expression
-trees, random statement programs (nested control flow, all loop forms, functions, Referenz)."""
+reference evaluator. Four generators: operator cell sweep over boundary values, random expression
+trees, random statement programs (nested control flow, all loop forms, functions, Referenz), and
+producer/consumer compositions (a wrapping arithmetic result consumed directly by a comparison,
+a second operator, a conversion or a condition; operands are globals or function parameters)."""
 import itertools
 import os
 import random
@@ -121,15 +123,144 @@ def stmt_program(rnd, k):
     return g
 
 
-GENS = [("cells", cell_program), ("trees", tree_program), ("stmts", stmt_program)]
+EXTREME = {
+    Z: [2 ** 63 - 1, -2 ** 63, 2 ** 63 - 8, -2 ** 63 + 8, 2 ** 62, -2 ** 62, 2 ** 62 + 1, 3037000500, -3037000500, 2 ** 32, 2 ** 31, -1, 0, 1, 2, 10, 20, 255, -256],
+    B: [0, 1, 2, 16, 127, 128, 200, 255],
+    K: [0.0, 0.5, -0.5, 1.0, -1.0, 2.0, 1e15, -1e15, 9007199254740992.0, 4503599627370497.0, 0.1, 0.25, 100.0, 1234.5678],
+}
+
+
+def compose_program(rnd, k):
+    """producer/consumer compositions: an arithmetic result over boundary operands (Zahl results that leave the 64-bit range and wrap,
+    Byte results that wrap at 256, large Kommazahlen) is consumed DIRECTLY by every kind of consumer - ordering comparison, equality,
+    zwischen, a second arithmetic operator, a conversion, a 'falls' condition, a 'Wenn' condition - without being stored in between.
+    The operands are not compile-time constants where they are used: globals read after calls, or parameters of a function that
+    returns the consumer's result (the shape `Gib a plus b kleiner als a ist zurück`). A code generator or optimiser that treats the
+    inner operation as non-wrapping (or evaluates the outer one at another width) gives the wrapped value when it is printed alone and
+    another answer when it is consumed."""
+    g = Gen(rnd, with_struct=False, with_any=False)
+    gl = {}
+    for ty in (Z, B, K):
+        gl[ty] = []
+        for v in rnd.sample(EXTREME[ty], 7 if ty == Z else 4):
+            x = g.declare(ty, Lit(ty, v))
+            if x is not None:
+                gl[ty].append(x)
+
+    def producers(src):
+        """(name, result type, thunk building the expression over operands delivered by src(ty)); only the chosen thunk is called"""
+        out = []
+        for op in ("plus", "minus", "mal"):
+            out.append((op + "(Z,Z)", Z, lambda op=op: Bin(op, src(Z), src(Z), Z)))
+            out.append((op + "(B,B)", B, lambda op=op: Bin(op, src(B), src(B), B)))
+            out.append((op + "(Z,B)", Z, lambda op=op: Bin(op, src(Z), src(B), Z)))
+            out.append((op + "(B,Z)", Z, lambda op=op: Bin(op, src(B), src(Z), Z)))
+            out.append((op + "(K,K)", K, lambda op=op: Bin(op, src(K), src(K), K)))
+            out.append((op + "(Z,K)", K, lambda op=op: Bin(op, src(Z), src(K), K)))
+        out.append(("neg(Z)", Z, lambda: Un("neg", src(Z), Z)))
+        out.append(("betrag(Z)", Z, lambda: Un("betrag", src(Z), Z)))
+        out.append(("links(Z)", Z, lambda: Bin("links", src(Z), Lit(Z, rnd.choice([1, 2, 31, 62, 63])), Z)))
+        out.append(("links(B)", B, lambda: Bin("links", src(B), Lit(Z, rnd.choice([1, 4, 7])), B)))
+        out.append(("cast(B,Z)", Z, lambda: Cast(src(B), Z)))
+        out.append(("cast(Z,B)", B, lambda: Cast(src(Z), B)))
+        out.append(("cast(Z,K)", K, lambda: Cast(src(Z), K)))
+        out.append(("durch(Z,Z)", K, lambda: Bin("durch", src(Z), src(Z), K)))
+        return out
+
+    def consumers(e, t, src):
+        out = []
+        for c in ("kleiner", "groesser", "kleinergleich", "groessergleich", "gleich", "ungleich"):
+            def t2(c=c):
+                return t if c in ("gleich", "ungleich") else rnd.choice([t, t, Z, K] if t != K else [K, K, Z])
+            out.append((c + ":l", lambda c=c, t2=t2: Bin(c, e, src(t2()), W)))
+            out.append((c + ":r", lambda c=c, t2=t2: Bin(c, src(t2()), e, W)))
+        if t in (Z, K):
+            out.append(("zwischen:1", lambda: Ter("zwischen", e, src(t), src(t), W)))
+            out.append(("zwischen:2", lambda: Ter("zwischen", src(t), e, src(t), W)))
+        for op in ("plus", "minus", "mal"):
+            out.append((op + ":again", lambda op=op: Bin(op, e, src(t), t)))
+        out.append(("durch:again", lambda: Bin("durch", e, src(rnd.choice([Z, K])), K)))
+        if t != K:
+            out.append(("cast:K", lambda: Cast(e, K)))
+            out.append(("modulo", lambda: Bin("modulo", e, src(t), t)))
+            out.append(("rechts", lambda: Bin("rechts", e, Lit(Z, rnd.choice([1, 3, 7])), t)))
+            out.append(("lund", lambda: Bin("lund", e, src(t), t)))
+            out.append(("cast:W", lambda: Cast(e, W)))
+        if t == Z:
+            out.append(("cast:B", lambda: Cast(e, B)))
+            out.append(("betrag:again", lambda: Un("betrag", e, Z)))
+            out.append(("neg:again", lambda: Un("neg", e, Z)))
+        if t == B:
+            out.append(("cast:Z", lambda: Cast(e, Z)))
+        out.append(("cast:T", lambda: Cast(e, T)))
+        out.append(("falls", lambda: Ter("falls", Lit(T, "ja"), Bin(rnd.choice(["kleiner", "groesser"]), e, src(t), W), Lit(T, "nein"), T)))
+        return out
+
+    def gsrc(ty):
+        if gl[ty] and rnd.random() < 0.85:
+            return rnd.choice(gl[ty])
+        return Lit(ty, rnd.choice(EXTREME[ty]))
+
+    n = tries = 0
+    while n < 40 and tries < 160:
+        tries += 1
+        form = rnd.choice(["global", "function", "function", "wenn"])
+        if form == "function":
+            # the consumer over the parameters of a function; called with boundary values
+            ps = {}
+            fname = g.fresh("f")
+
+            def psrc(ty, ps=ps, fname=fname):
+                have = [v for v in ps.values() if v.ty == ty]
+                if have and rnd.random() < 0.4:
+                    return rnd.choice(have)     # the same parameter twice: `a plus b kleiner als a`
+                nm = "p%d_%s" % (len(ps), fname)
+                ps[nm] = Var(nm, ty)
+                return ps[nm]
+            pname, t, mk = rnd.choice(producers(psrc))
+            e = mk()
+            cname, mk = rnd.choice(consumers(e, t, psrc))
+            ce = mk()
+            params = [Param(nm, v.ty) for nm, v in ps.items()]
+            f = FuncDecl(fname, params, ce.ty, [Return(ce)])
+            g.prog.items.append(f)
+            ok = 0
+            for _ in range(3):
+                args = [gsrc(p.ty) if rnd.random() < 0.5 else Lit(p.ty, rnd.choice(EXTREME[p.ty])) for p in params]
+                if g.try_top(g.observe(Call(f, args, ce.ty))):
+                    ok += 1
+            if not ok:
+                g.prog.items.remove(f)
+                continue
+            n += ok
+        else:
+            pname, t, mk = rnd.choice(producers(gsrc))
+            e = mk()
+            cname, mk = rnd.choice(consumers(e, t, gsrc))
+            ce = mk()
+            if form == "wenn" and ce.ty == W:
+                g.obs += 1
+                st = [If([(ce, [Print(Lit(T, "#%d:ja" % g.obs), True)])], [Print(Lit(T, "#%d:nein" % g.obs), True)])]
+            else:
+                st = g.observe(ce)
+            if not g.try_top(st):
+                continue
+            n += 1
+        g.cells.add(("compose", pname, cname.split(":")[0], form))
+    return g
+
+
+GENS = [("cells", cell_program), ("trees", tree_program), ("stmts", stmt_program), ("compose", compose_program)]
 
 
 def run(tier):
     vlib.ensure_build(asan=False)
     chk = Check(PID, tier)
-    nprog, other_levels = (150, 50) if tier == "quick" else (3000, 3000)
-    chk.rule = ("programs from three seeded generators (operator cell sweep over boundary value pools; random expression trees of depth <= 4; random "
-                "statement programs with nested if/loops of every form, functions with value and Referenz parameters, early exits); each observation is a "
+    nprog, other_levels = (160, 50) if tier == "quick" else (3200, 3200)
+    chk.rule = ("programs from four seeded generators (operator cell sweep over boundary value pools; random expression trees of depth <= 4; random "
+                "statement programs with nested if/loops of every form, functions with value and Referenz parameters, early exits; producer/consumer compositions: "
+                "wrapping Zahl/Byte arithmetic and large Kommazahlen over extreme operands consumed directly by comparisons, zwischen, further arithmetic, conversions, "
+                "falls/Wenn conditions, with operands that are globals or parameters of a function); each observation is a "
                 "tagged output line. A program is distinct by its source hash and non-trivial when it produced >= 1 observation. Oracle: byte-exact stdout "
                 "and exit status vs the independent reference evaluator (ddpmodel), at -O 1 for every program and at -O 0 and -O 2 for a subset.")
     chk.assumptions = ["model domain: no modulo by 0, shifts within the width, float->int conversions only when representable, no NaN comparisons, canonical "
@@ -139,7 +270,7 @@ def run(tier):
         jobs = []
         for i in range(nprog):
             gname, gfn = GENS[i % len(GENS)]
-            levels = [1] + ([0, 2] if (i < other_levels or gname == "stmts") else [])     # statement programs always at every level
+            levels = [1] + ([0, 2] if (i < other_levels or gname in ("stmts", "compose")) else [])     # statement and composition programs always at every level
             jobs.append((i, gname, gfn, levels))
 
         def work(job):
